@@ -19,7 +19,7 @@ N == Len(Rec)
 VARIABLES l, P, st
 vars == <<l, P, st>>
 
-Viol(id, detail) == PrintT(<<"VIOL", id, l, detail>>)
+Viol(id, detail) == PrintT("VIOL|" \o id \o "|" \o ToString(l) \o "|" \o ToString(detail))
 Check(id, ok, detail) == IF ok THEN TRUE ELSE Viol(id, detail)
 
 Min2(a, b) == IF a < b THEN a ELSE b
@@ -169,7 +169,8 @@ LruChecks ==
     LET O == SelectSeq(st.order, Evictable)        \* eligible, least recently requested first
         E == st.evNow
         kept == {O[i] : i \in 1..Len(O)} \ E
-        excess == IF st.cap = 0 THEN 0 ELSE Max2(0, Len(O) - st.cap)
+        \* salsa's capacity also counts requested results that cannot be evicted (untracked ones)
+        excess == IF st.cap = 0 THEN 0 ELSE Max2(0, Len(st.order) - st.cap)
     IN
     /\ Check("C05", st.cap = 0 => E = {}, <<"evicted although capacity 0", E>>)
     /\ Check("C05", E \subseteq {O[i] : i \in 1..Len(O)},
@@ -261,7 +262,7 @@ OnRet ==
 
 OnSub ==
     \* intermediate result of the creator inside a `gets`
-    st' = [st EXCEPT !.handed = st.handed \cup {<<ev.s, ev.v>>}]
+    st' = [Touch(st, "f" \o ToString(st.cur.f)) EXCEPT !.handed = st.handed \cup {<<ev.s, ev.v>>}]
 
 OnWe ==
     LET k == ev.k
